@@ -119,6 +119,8 @@ INFO = {
     "node based storage (non-trivial key or value): a reader finds an entry another thread has just inserted and dereferences its node without happens-before to its construction"),
  "r6-c10-vyukov-extract-ext-prev-lost": ("C10", "vyukov_hash_map::do_extract: the extension loop no longer advances extension_prev, a removal in the extension list writes bucket.head = found->next",
     ">= 128 buckets, >= 5 keys in one bucket, erase / extract of an extension key that is not the most recently inserted one: the items in front of it vanish"),
+ "r7-c01-stampit-cached-retire-stamp": ("C01", "stamp_it::thread_data::add_retired_node caches the head stamp and re-uses it for retirements that follow without an intervening enter_region",
+    "a thread holding two guards reclaims both back to back; another thread enters its region and acquires the second node between the two retirements; the retirer leaves as the oldest block"),
  "r7-c02-qsbr-orphans-taken-before-cas": ("C02", "quiescent_state_based::try_update_epoch empties the global orphan list before the epoch CAS and only keeps the chain when the CAS succeeds",
     "a thread exited with retired nodes, two other threads try to advance the same epoch: the one that took the orphans loses the CAS, the orphan (and every node in it) is leaked"),
  "r7-c04-nikolaev-pop-next-after-retry": ("C04", "nikolaev_queue::do_pop checks node->_next only after the second dequeue attempt (the 'successor exists' observation no longer precedes the last failing dequeue)",
@@ -131,6 +133,8 @@ INFO = {
     "another thread erases and reclaims exactly the successor between the unlink and the guard creation (hazard_pointer / hazard_eras): the returned iterator refers to freed memory"),
  "r7-c10-vyukov-grow-ext-old-head": ("C10", "vyukov_hash_map::do_grow pushes a re-created extension item in front of old_bucket.head instead of new_bucket.head",
     ">= 128 buckets, >= 4 keys that still collide after doubling while the extension pool is exhausted: keys twice in the new table / reachable only through the retired block"),
+ "r7-c11-vyukov-iterator-move-assign-reset": ("C11", "vyukov_hash_map::iterator move assignment calls other.reset() instead of clearing the moved-from fields: the bucket lock just taken over is released",
+    "an iterator obtained through move assignment (it = map.find(k)) and another thread updating the same bucket while it is alive; the iterator later writes its stale state back (lost element)"),
  "r7-c12-deque-steal-retry-stale-bottom": ("C12", "chase_work_stealing_deque::try_steal retries a lost top CAS (weak CAS loop) against the bottom value it loaded before the first attempt",
     "a thief delayed between its bottom load and its CAS while top advances and the owner pops two items back to back: item returned twice, top passes bottom"),
  "r7-c15-qsbr-copy-assign-marked-null": ("C15", "quiescent_state_based guard_ptr copy assignment enters the region only if get() != nullptr while reset / destructor leave it whenever the marked pointer is non-zero",
